@@ -1,6 +1,6 @@
 """C07 - re-running a codemod on its own output changes nothing (fixed point).
 
-For every codemod: the vendored seeds under the Variants.tla feature vectors (find-and-fix) or with the repository's
+For every codemod: the vendored seeds under the Variants.tla feature vectors, argument-list variations included (find-and-fix) or with the repository's
 own findings (SAST, result files kept); each project is run twice with the same arguments.  Trace_Run validates both
 traces; on the second one the expectation `frozen` holds: no FileEnd reports a change, no file moves, and the final
 tree equals the tree after the first run.
@@ -18,8 +18,8 @@ CLAUSES = ("FileEnd:second-run-reports-a-change", "FileEnd:second-run-modified-a
 
 
 def run(chk: Check) -> None:
-    vectors = progspace.enumerate_vectors(chk)
-    scenarios = progspace.build_batches(chk, with_extra=True, vectors=vectors, seeds_per_codemod=chk.pick(3, 10), vectors_per_seed=chk.pick(4, 30), second_run=True)
+    vectors = progspace.enumerate_vectors(chk, with_args=True)
+    scenarios = progspace.build_batches(chk, with_extra=True, vectors=vectors, seeds_per_codemod=chk.pick(3, 10), vectors_per_seed=chk.pick(7, 40), second_run=True)
     scenarios += progspace.build_sast(chk, max_per_codemod=chk.pick(2, 6), second_run=True)
     results, verdicts = progspace.run_batches(chk, scenarios)
     for scn, r in zip(scenarios, results):
@@ -37,7 +37,7 @@ def run(chk: Check) -> None:
             again = [e for e in ev2.get(rel, []) if e["o"] == "changed"] or (rel in second["changed_files"])
             if again:
                 v_ = meta["vector"]
-                chk.violation(f"C07|{scn['_codemod']}|x{v_['mult']}|{meta['seed'].split('|')[-1]}|{v_['wrap']}/{v_['layout']}/{v_['imp']}",
+                chk.violation(f"C07|{scn['_codemod']}|x{v_['mult']}|{meta['seed'].split('|')[-1]}|{v_['wrap']}/{v_['layout']}/{v_['imp']}" + (f"/{v_['args']}" if v_.get("args", "asis") != "asis" else ""),
                               f"{scn['_codemod']} on seed {meta['seed']} varied as {progspace.vec_key(meta['vector'])}: the second run changes the file again",
                               {"codemod": scn["_codemod"], "program": scn["files"][rel], "vector": meta["vector"]})
     chk.sample({"codemod": scenarios[0]["_codemod"], "variants": [progspace.vec_key(m["vector"]) for m in list(scenarios[0]["_metas"].values())[:8]]})
